@@ -46,6 +46,7 @@ type Behaviour struct {
 	Loops    map[int]*LoopSpec
 	Asserts  map[string][]*Clause // keyed program point
 	Panics   []*Clause            // "panics when"
+	Insts    []*Clause            // instantiate Callee.beh(ghost args): parsed as a call expression "Callee.beh(args)"
 }
 
 func newBeh(name string) *Behaviour {
@@ -103,7 +104,7 @@ type SpecFile struct {
 	Axioms    []*Axiom
 }
 
-var kwRe = regexp.MustCompile(`^(opaque|uses|manual|keeps|macro|ghost|func|requires|ensures|assigns|invariant|loop|behaviour|behavior|spec|axiom|lemma|decreases|inline|trusted|overflow|nopanic|props|panics|assert|rec)\b`)
+var kwRe = regexp.MustCompile(`^(instantiate|opaque|uses|manual|keeps|macro|ghost|func|requires|ensures|assigns|invariant|loop|behaviour|behavior|spec|axiom|lemma|decreases|inline|trusted|overflow|nopanic|props|panics|assert|rec)\b`)
 
 var readsRe = regexp.MustCompile(`\s+reads\s*\{([^}]*)\}\s*`)
 
@@ -239,6 +240,19 @@ func ParseSpecFile(path, pkg string) (*SpecFile, error) {
 			beh = newBeh(name)
 			beh.Ghosts = ghosts
 			cur.Behs = append(cur.Behs, beh)
+		case "instantiate":
+			// instantiate Callee.beh(g1, g2): at calls of Callee, its behaviour beh may be used with these ghost arguments
+			if err := needBeh(); err != nil {
+				return nil, err
+			}
+			c, err := mkClause(rest, it.no)
+			if err != nil {
+				return nil, err
+			}
+			if c.Expr.Kind != "call" {
+				return nil, fail("instantiate needs Callee.behaviour(args)")
+			}
+			beh.Insts = append(beh.Insts, c)
 		case "requires", "ensures", "assigns", "panics":
 			if err := needBeh(); err != nil {
 				return nil, err
